@@ -266,18 +266,21 @@ fn bad() -> Vec<Tok> {
 }
 
 fn exec(case: &[Tok]) -> Vec<Tok> {
+    // case[0] (build mode) only selects the model's arithmetic; the real code runs as built
     if case.len() != 5 {
         return bad();
     }
     let (ep, goff, loff, total) = (case[1].u(), case[2].u() as usize, case[3].u() as usize, case[4].u() as usize);
     let (level, op, flags) = (ep >> 12, (ep >> 4) & 0xff, ep & 0xf);
     let read = flags & F_READ != 0;
-    if case[0].u() != crate::build_mode() || flags_of(level, op, read) != Some(flags) {
+    if flags_of(level, op, read) != Some(flags) {
         return bad();
     }
     let unctl = flags & F_UNCTL != 0;
+    // the guest address itself must be mapped, also for total = 0: what a zero-length access at
+    // the first unmapped address returns is C18's business, not modelled here
     if total > MAXTOTAL
-        || goff > GSIZE
+        || goff >= GSIZE
         || goff + total > GSIZE
         || loff >= 64
         || (flags & F_INT != 0 && ![1, 2, 4, 8].contains(&total))
@@ -470,7 +473,7 @@ fn gen(rng: &mut Rng, tier: Tier, emit: &mut dyn FnMut(Vec<Tok>)) {
             1 => (rng.below(5) as usize) * PAGE + rng.below(8) as usize,
             _ => rng.below((GSIZE - total) as u64 + 1) as usize,
         };
-        let goff = goff.min(GSIZE - total);
+        let goff = goff.min(GSIZE - total).min(GSIZE - 1);
         emit(vec![n(mode), n(ep), us(goff), us(rng.below(64) as usize), us(total)]);
     }
 }
@@ -520,7 +523,7 @@ fn exec_atomic(case: &[Tok]) -> Vec<Tok> {
         return bad();
     }
     let (ep, size, goff, len) = (case[1].u(), case[2].u() as usize, case[3].u(), case[4].u() as usize);
-    if case[0].u() != crate::build_mode() || ![1, 2, 4, 8].contains(&size) || ep > 3 || len > GSIZE {
+    if ![1, 2, 4, 8].contains(&size) || ep > 3 || len > GSIZE {
         return bad();
     }
     if (ep == 1 || ep == 2) && (len != GSIZE || goff >= 1 << 32) {
@@ -664,7 +667,7 @@ fn exec_tear(case: &[Tok]) -> Vec<Tok> {
         return bad();
     }
     let (level, size, millis) = (case[1].u(), case[2].u() as usize, case[3].u());
-    if case[0].u() != crate::build_mode() || level > 1 || ![2, 4, 8].contains(&size) || millis > 5000 {
+    if level > 1 || ![2, 4, 8].contains(&size) || millis > 5000 {
         return bad();
     }
     // an own mapping: the reader/writer threads must not share the thread-local world
